@@ -230,7 +230,7 @@ theorem permOK_sound {I : Interp} {tbl : List Model} {sigs : List Sig} {rules : 
             simp only [Option.map_some, Option.some.injEq] at hna hnb
             show runTr I ρ ta0 = (runTr (I.withFinishArgs (f π)) ρ tb0).map (τOut π)
             rw [← runTr_norm hI ρ ta0, ← runTr_norm (hI.withFinishArgs (f π)) ρ tb0, hna, hnb,
-              ← runTr_sortTr ρ ta, ← runTr_sortTr ρ tb]
+              ← runTr_sortTr ρ ta, ← runTr_sortTr (I := I.withFinishArgs (f π)) ρ tb]
             exact runTr_perm ρ hP π (sortTr tb) (sortTr ta) h
 
 end DadiVerif.ModelDSL
